@@ -582,6 +582,12 @@ def check_tree(e, owners, version, level, out, path='root', depth=0):
 
 
 # ------------------------------------------------------------------ the world
+# rejection causes the generator labels exactly and the statement of C05 names: "STRICT never lets a child
+# exceed its maximum cardinality, a foreign or unknown child in ..." (measured: STRICT refuses every one of
+# these operations on the unchanged tree, 0 acceptances in ~1000 of each)
+STRICT_MUST_REFUSE = frozenset(['foreign_name', 'unknown_name', 'unknown_element', 'base_overflow', 'wrong_class'])
+
+
 class HistoryWorld:
     def __init__(self, case, generator=None):
         self.case = case
@@ -685,6 +691,8 @@ class HistoryWorld:
                 dst = EM.find_rep(parent, t, key, rr)
                 if dst is src:
                     return done()
+                if dst is None and sp_parent is parent:
+                    return done()      # already a child of that element: adding it again is a no-op
                 sp_parent.kids = [k_ for k_ in sp_parent.kids if k_ is not src]
                 src.key = key
                 if dst is None:
@@ -754,6 +762,17 @@ class HistoryWorld:
         if k == 'grab':
             sut.held_nodes[op['reg']] = EM.resolve(root, mpath)
             return (0, 0)
+        if k == 'held_value':
+            # .value = text through a handle to a component read earlier along op['hp'] (nothing was
+            # attached in between): the same as writing there now
+            if not op.get('hp'):
+                return 'lost'
+            hpath = [(t_, k_, r_) for t_, k_, r_, s_ in op['hp']]
+            node, _ = EM.ensure_path(root, hpath)
+            if node.kind != 'cmp':
+                return 'lost'
+            node.kids = EM.node_from_text('cmp', node.key, op['text'], ec).kids
+            return done()
         if k == 'held_set':
             # a write through a handle obtained earlier by reading the same path: same as writing there now
             hpath = [(t_, k_, r_) for t_, k_, r_, s_ in op['hp']]
@@ -878,9 +897,10 @@ class HistoryWorld:
                 continue
             read_like = op['k'] in ('read', 'validate')
             before = s.snapshot(with_validate=read_like and op.get('deep', True))
-            ids_before = s.all_ids() if op['k'] in ('set', 'add', 'value', 'held_set') and op.get('via') not in ('parent_kw', 'parent_attr') \
+            ids_before = s.all_ids() if op['k'] in ('set', 'add', 'value', 'held_set', 'held_value') and op.get('via') not in ('parent_kw', 'parent_attr') \
                 and 'elem' not in (op.get('v') or {}) else None
             self.fs.reset()
+            twin_probe = self.fresh_twin_verdict(s, op) if op['k'] == 'datatype' and self.case.get('mix') == 'c04' else None
             try:
                 ret = s.apply(op)
                 exc = None
@@ -890,12 +910,20 @@ class HistoryWorld:
             except Exception as ex:       # noqa: the library's rejection is the injected fault
                 ret, exc = None, ex
             s.last_exc = exc
+            if twin_probe is not None:
+                again = self.fresh_twin_verdict(s, op)
+                if again != twin_probe:
+                    self.violate('C04.deterministic',
+                                 'changing the datatype of one element changes the verdict on a new, untouched element of the same name',
+                                 '%s before=%r after=%r' % (s.tag, twin_probe, again), step)
             after = s.snapshot(with_validate=read_like and op.get('deep', True))
             results[si] = (exc, ret)
             okey = self.op_key(op)
             self.log.append((step, s.tag, okey, 'EXC ' + canon_exc(exc) if exc is not None else 'ok',
                              hashlib.sha1(repr([x[:2] for x in after]).encode()).hexdigest()[:10]))
             if exc is not None:
+                if op.get('bad') and s.level == 1 and not isinstance(exc, NavError):
+                    self.probe('strict_refuses:' + op['bad'])
                 self.fault('rejected:' + (op.get('bad') or type(exc).__name__))
                 self.probe('op_rejected')
                 self.check_c12(s, step, op, before, after, exc)
@@ -909,6 +937,8 @@ class HistoryWorld:
                         s.models[ri_] = None     # a non-atomic rejection: the model cannot know what is left
             else:
                 self.probe('op_accepted')
+                if op.get('bad') and s.level == 1:
+                    self.probe('strict_accepts:' + op['bad'])
                 if op.get('bad') and op['bad'] not in ('cardinality', 'delete_absent', 'delete_required'):
                     s.wrote_invalid = True
                 if read_like:
@@ -938,6 +968,29 @@ class HistoryWorld:
                 self.states.add(hashlib.sha1((repr(EM.canon(m)) + okey).encode()).hexdigest()[:12])
         if self.twin:
             self.check_twin_step(step, op, results)
+
+    def fresh_twin_verdict(self, sut, op):
+        """What a *new* element of the same name, version and level as the target of a datatype op looks
+        like to the library: its datatype, its validation report, its encoding after a value.  A datatype
+        change is local to the element it is made on; the structure tables every other element is built
+        from are shared by the whole process."""
+        try:
+            ri = op.get('root', 0)
+            ctx = sut.ctx_path(ri, op['p'])[-1]
+            from hl7apy import core
+            cls = {'fld': core.Field, 'cmp': core.Component}.get(ctx.kind)
+            if cls is None or not ctx.name:
+                return None
+            e = cls(ctx.name, version=sut.meta[ri]['version'], validation_level=sut.level)
+            out = [e.datatype]
+            try:
+                r = e.validate(return_errors=True)
+                out.append([sorted(canon_text(str(x)) for x in r.errors), sorted(canon_text(str(x)) for x in r.warnings)])
+            except Exception as ex:       # noqa
+                out.append('EXC ' + canon_exc(ex))
+            return out
+        except Exception as ex:       # noqa
+            return 'EXC ' + canon_exc(ex)
 
     def op_key(self, op):
         k = op['k']
@@ -1072,6 +1125,9 @@ class HistoryWorld:
             return
         if isinstance(ra[0], NavError) or isinstance(rb[0], NavError):
             return
+        if op.get('bad') in STRICT_MUST_REFUSE:
+            self.violate('C05.strict_refuses', 'STRICT lets a %s child in (%s)' % (
+                {'base_overflow': 'surplus'}.get(op['bad'], 'foreign or unknown'), self.op_key(op)), op['bad'], step)
         if rb[0] is not None:
             self.violate('C05.accept', '%s accepted under STRICT is rejected under TOLERANT' % self.op_key(op),
                          canon_exc(rb[0]), step)
